@@ -303,6 +303,48 @@ def r12_5(ctx):
 APA = "transports::sctp::SctpInner::update_advanced_peer_ack_point"
 
 
+
+POLICY_FIELDS = ("max_retransmits", "expiry")
+
+
+def _policy_edges(b):
+    """switch edges that say whether the chunk record at hand has a partial-reliability policy of its own
+    (`record.max_retransmits.is_some() || record.expiry.is_some()`, also through a bool local holding that value):
+    -> (edges meaning it has one, edges meaning it has none). The policy is set per message in send_data_raw, so
+    it is the same for every chunk of a message."""
+    has, hasnt = set(), set()
+
+    def is_policy_test(t):
+        return t[0] == "call" and t[1].endswith(("Option::<T>::is_some", "Option::<T>::is_none")) and \
+            mir.has(t, lambda x: x[0] == "field" and x[2] in POLICY_FIELDS)
+    for sb in range(len(b.blocks)):
+        if sb in b.cleanup or b.blocks[sb]["t"]["k"] != "switch":
+            continue
+        term, outs = b.switch_info(sb)
+        t, neg = term, False
+        while t[0] == "un" and t[1] == "Not":
+            t, neg = t[2], not neg
+        for tgt, _, m in outs:
+            verdict = None
+            if is_policy_test(t) and isinstance(m, bool):
+                verdict = (m != neg) == t[1].endswith("is_some")
+            elif t[0] == "discr" and m in ("Some", "None") and mir.has(t[1], lambda x: x[0] == "field" and x[2] in POLICY_FIELDS) \
+                    and not mir.has(t[1], lambda x: x[0] == "call"):
+                verdict = (m == "Some")
+            elif t[0] == "var" and len(t) > 2 and isinstance(m, bool):
+                defs = b.var_def_terms(t[2])
+                if defs and any(is_policy_test(d) for d in defs) and all(is_policy_test(d) or mir.int_value(d) in (0, 1) for d in defs):
+                    verdict = (m != neg)
+            if verdict is True:
+                has.add((sb, tgt))
+            elif verdict is False:
+                # "max_retransmits is None" alone does not mean "no policy" (expiry may be set): only the combined
+                # bool, or a test that is the last of an `a || b` chain, does. Accept the combined bool only.
+                if t[0] == "var":
+                    hasnt.add((sb, tgt))
+    return has, hasnt
+
+
 def r12_6(ctx):
     """abandonment is per message: once a (stream, ssn) is in the abandon set, every chunk record of that
     message is marked abandoned - no per-chunk predicate (acked, in_flight ..) may let a chunk of the message
@@ -341,6 +383,9 @@ def r12_6(ctx):
                         cut.add((sb, tgt))          # not a member: nothing to mark
                 if tt[0] == "field" and tt[2] == "abandoned" and isinstance(meaning, bool) and (meaning is not neg):
                     cut.add((sb, tgt))              # already marked
+        # a record without a partial-reliability policy is not part of any abandonable message (R12.12): the policy
+        # is per message, so skipping on it is not a per-chunk escape
+        cut |= {e for e in _policy_edges(b)[1] if e[0] in blocks}
         if not starts:
             raise core.CheckerError("R12.6: cannot find the iterator of the marking sweep")
         if not member_ok:
@@ -639,5 +684,36 @@ def r12_11(ctx):
     return r
 
 
+def r12_12(ctx):
+    """'a channel opened in-band appears at the peer': the DCEP OPEN / ACK are sent reliably on the channel's own
+    stream, where they share the (stream, SSN 0) key of the abandonment set with every unordered message (and with
+    the first ordered one). RFC 3758 allows giving up only chunks that have a partial-reliability policy; a reliable
+    chunk that is marked abandoned is removed from the retransmission queue and skipped by FORWARD-TSN - if its
+    first transmission is lost the peer never learns of the channel. So: every `abandoned = true` in the sender is
+    cut by `max_retransmits.is_some() || expiry.is_some()` of that same record."""
+    r = RuleResult("R12.12", "K1", "only chunks with a partial-reliability policy of their own are ever abandoned")
+    n = 0
+    for b in ctx.facts.bodies(prefix="transports::sctp::"):
+        if "::tests::" in b.name:
+            continue
+        sites = [(bi, si) for bi, si, st in core.field_writes(b, lambda f: f == "abandoned")
+                 if si is not None and b.term_rvalue(st["rv"])[:2] == ("const", 1)]
+        if not sites:
+            continue
+
+        g = _policy_edges(b)[0]
+        r.scope.append(b.name)
+        for bi, si in sites:
+            n += 1
+            if g and core.k1(b, [bi], g, fresh_per_iteration=True)[bi] is None:
+                r.ok({"site": b.where(bi, si), "cut_by": "record.max_retransmits / record.expiry is Some"})
+            else:
+                r.violate(b.name, "abandon:reliable", b.where(bi, si),
+                          "a chunk can be marked abandoned without having a partial-reliability policy (max_retransmits / expiry): a "
+                          "reliable chunk that shares the (stream, SSN) key - the DCEP OPEN / ACK - is dropped from the retransmission queue")
+    r.need("abandoned = true sites", n, 2)
+    return r
+
+
 def run(ctx):
-    return [r12_1(ctx), r12_2(ctx), r12_2b(ctx), r12_3(ctx), r12_4(ctx), r12_5(ctx), r12_6(ctx), r12_7(ctx), r12_8(ctx), r12_9(ctx), r12_10(ctx), r12_11(ctx)]
+    return [r12_1(ctx), r12_2(ctx), r12_2b(ctx), r12_3(ctx), r12_4(ctx), r12_5(ctx), r12_6(ctx), r12_7(ctx), r12_8(ctx), r12_9(ctx), r12_10(ctx), r12_11(ctx), r12_12(ctx)]
